@@ -585,8 +585,10 @@ class CallMixin(ExprMixin):
                 callee_inv = [self.spec_bool(cl.expr, env) for cl in I2.inv]
         for f in callee_inv:
             self.assume(f)
-        opts = [None] + [None] * len(C.raises)
-        which = self.choice(opts, 'call:' + C.key) if C.raises else 0
+        skip = self.C.ignore_callee_raises.get(C.key, ()) if self.C is not None else ()
+        raises = [rc for rc in C.raises if not (rc.caller_only and rc.label in skip)]
+        opts = [None] + [None] * len(raises)
+        which = self.choice(opts, 'call:' + C.key) if raises else 0
         if which == 0:
             res = fresh(C.returns, 'ret_' + C.key.split('.')[-1]) if C.returns.cls != 'NoneType' else mk_none()
             self.assume_type(res)
@@ -595,7 +597,7 @@ class CallMixin(ExprMixin):
             for cl in list(C.ensures) + list(C.exits_ensure):
                 self.assume(self.spec_bool(cl.expr, env2, entry=pre))
             return res
-        rc = C.raises[which - 1]
+        rc = raises[which - 1]
         if rc.when is not None:
             self.assume(self.spec_bool(rc.when, env, entry=pre))
             if self.ch.fresh_part and not self.ch.feasible(self.st.pc, z3.BoolVal(True)):
